@@ -166,7 +166,7 @@ func customModel() map[string]m.CustomFn {
 			}
 			return a[0], nil
 		},
-		"c_cnt":  func(a []interface{}, calls int64) (interface{}, error) { return calls, nil },
+		"c_cnt": func(a []interface{}, calls int64) (interface{}, error) { return calls, nil },
 	}
 }
 
